@@ -14,6 +14,11 @@ json.dump(d,open(p,'w'),indent=1)
 fx=Facts(extract.extract('/repo','cfb'))
 k=json.load(open('/verif/rules/known_functions.json'))
 k['functions']=sorted((set(k['functions'])|set(fx.fns))-set(k.get('inline',[])))
+from facts import _sig_text
+sg=k.get('signatures',{})
+for s_ in fx.d['sigs']:
+    if s_['path'] in k['functions']: sg[s_['path']]=_sig_text(s_)
+k['signatures']=sg
 json.dump(k,open('/verif/rules/known_functions.json','w'),indent=0)
 # sink keys covered by each audited entry on this tree
 sys.path.insert(0,'/verif/engine/cfbsa')
